@@ -16,7 +16,7 @@ LEVEL = {
  "C02": ('theorems: source order, shared lexical layer, enum tables regenerated from source, canonical text and every other presentation of a well-formed master value parse to it (C02_canonical_text, C02_styled_text); correspondence against an independent expectation over structured master playlists', "3 (C02)"),
  "C03": ("theorems on the writer/reader key-state duality at item level, the text-level round trip for every parse result with durations below 2^20 s and plain SCTE35 values, with no hypothesis on floats (C03_roundtrip_parsed); correspondence + direct oracle (dump and text fixed point) over exhaustive key histories and random playlists", "3 (C03)"),
  "C04": ("theorems: master writer has no state; value round trips (integers, enums); correspondence + direct oracle over structured master playlists", "3 (C04)"),
- "C05": ('theorems: no entry point of the model yields Panic for any string; the index-level model of the tokenizer / unquote / tag (byte offsets, panicking slices, checked subtraction) refines the structural model for every string (C05_tokenizer_indices, C05_unquote_slice, C05_tag_split); tokenizer progress; correspondence on returned/panicked over near-valid, boundary and random inputs; stress inputs each in its own process of an unoptimised build; time scaling measured in the thorough tier (partial)', "3 (C05)"),
+ "C05": ('theorems: no entry point of the model yields Panic for any string; the index-level model of the tokenizer / unquote / tag (byte offsets, panicking slices, checked subtraction) refines the structural model for every string (C05_tokenizer_indices, C05_unquote_slice, C05_tag_split); tokenizer progress; key work linear in the number of key events for bounded key formats, quadratic otherwise (C05_key_work_linear, C05_key_work_quadratic); correspondence on returned/panicked over near-valid, boundary and random inputs; stress inputs each in its own process of an unoptimised build; time scaling measured in the thorough tier (partial)', "3 (C05)"),
  "C06": ("theorem: the parser's key list after any history is exactly the RFC 8216 4.3.2.4 keys in effect, one per format, in tag order; segment/map snapshots; correspondence + independent oracle, exhaustive to a bound", "3 (C06)"),
  "C07": ('theorems: numbers = media sequence + position for every accepted item list, IV rule, explicit IV verbatim, 128-bit big-endian round trip, writer strips derived IVs; correspondence + oracle incl. the re-parse of the written text and builders that were used before / carry preset values', "3 (C07)"),
  "C08": ("theorems: validation accepts iff the chain resolves; completed ranges equal the resolved ones; set_start never panics; correspondence + oracle incl. exhaustive chains", "3 (C08)"),
